@@ -7,7 +7,19 @@ C03.* data-flow fidelity, C07.* max_advance, C10.* lazy stepping.
 """
 from __future__ import annotations
 
+import json
+
 from mvf import harness, reftime
+
+
+def hk(v):
+    """hashable key of a JSON value (payloads need not be strings)"""
+    if isinstance(v, str):
+        return v
+    try:
+        return "\0json:" + json.dumps(v, sort_keys=True)
+    except Exception:  # noqa
+        return "\0repr:" + repr(v)
 
 
 class V(dict):
@@ -287,8 +299,7 @@ class Monitor:
                 for key, val in srcs.items():
                     got[(eid, attr, key)] = val
         for slot, val in got.items():
-            if isinstance(val, str):
-                self.seen.setdefault((s, slot, val), L)
+            self.seen.setdefault((s, slot, hk(val)), L)
             # an event value that is handed over too early is reported once (not_yet_due) and then counts as
             # delivered, so that the same defect is not reported again as "lost" at the step where it was due
             c = info.get(slot)
@@ -323,7 +334,7 @@ class Monitor:
             want = e[1]
             if not has:
                 rule = "C03.lost" if not c.persistent else "C03.missing_persistent"
-                first = self.seen.get((s, slot, want))
+                first = self.seen.get((s, slot, hk(want)))
                 early = first is not None and first < L and first[0] == L[0]
                 if not early and any(x for x in L[1:]):
                     # another value of this connection was delivered to an earlier sub-step of the same
@@ -335,7 +346,7 @@ class Monitor:
                     # due at the same integer time (a different sub-step) was delivered in its place
                     hw = [h for h in c.hist if h[2] == want]
                     if hw:
-                        early = any(h2 is not hw[0] and h2[0][0] == hw[0][0][0] and (s, slot, h2[2]) in self.seen
+                        early = any(h2 is not hw[0] and h2[0][0] == hw[0][0][0] and (s, slot, hk(h2[2])) in self.seen
                                     for h2 in c.hist)
                 self.v(rule, f"{s}@{L}: slot {slot} is absent, expected {want!r}"
                        + (f" (this slot was already served at an earlier sub-step of time {L[0]})" if early else ""),
@@ -368,7 +379,7 @@ class Monitor:
         if g == c.init:
             return "C03.initial_data_instead_of_value" if want is not None else "C03.initial_data_unexpected"
         try:
-            prod = self.tokens.get(g)
+            prod = self.tokens.get(hk(g))
         except TypeError:
             return "C03.mismatch"
         if prod is None:
@@ -422,7 +433,7 @@ class Monitor:
                 due = reftime.apply(c.delay, Tout)
                 c.hist.append([due, self.seq, val, False, L])
                 try:
-                    self.tokens.setdefault(val, []).append(c)
+                    self.tokens.setdefault(hk(val), []).append(c)
                 except TypeError:
                     pass        # unhashable payload (calibration with foreign simulators)
                 q = c.dst
